@@ -347,14 +347,15 @@ fn gen_digit_string(rng: &mut Rng) -> (Vec<u8>, i64) {
         _ => rng.below(20),
     };
     let radix = rng.range(2, 36) as u32;
+    let noisy = rng.chance(1, 3);
     for _ in 0..n {
-        if rng.chance(9, 10) {
+        if !noisy || rng.chance(5, 6) {
             out.push(std::char::from_digit(rng.below(radix as u64) as u32, radix).unwrap() as u8);
         } else {
             out.push(*rng.pick(DIGIT_ALPHABET));
         }
     }
-    match rng.below(30) {
+    match if noisy { rng.below(8) } else { 99 } {
         0 => out.extend_from_slice("é".as_bytes()),
         1 => out.push(0xff),
         2 => out.insert(0, 0xc3),
